@@ -165,6 +165,12 @@ def many_scopes(reuse):
 
 
 HAND += [
+    # every export form against every other, the second export made in a later file: always a duplicate, never a silent binding
+    *[(f"two-exports/{na}-vs-{nb}", {"files": [fa, fb + [("use", "n")], [("use", "n")]]})
+      for na, fa in (("const", [("def", "n", "V1", "==")]), ("label", [("lab", "n", "::")]), ("extern", [("ext", "n"), ("def", "n", "V1", "=")]),
+                     ("def-then-extern-all", [("def", "n", "V1", "="), ("ext", "all")]))
+      for nb, fb in (("def-then-extern-all", [("def", "n", "V2", "="), ("ext", "all")]), ("extern-all-then-def", [("ext", "all"), ("def", "n", "V2", "=")]),
+                     ("def-then-extern", [("def", "n", "V2", "="), ("ext", "n")]), ("label-then-extern-all", [("lab", "n", ":"), ("ext", "all")]))],
     ("many-scopes-dangling", many_scopes(False)),
     ("many-scopes-reuse", many_scopes(True)),
     ("many-scopes-in-second-file", {"files": [many_scopes(True)["files"][0], many_scopes(False)["files"][0][:6] + [("useloc", "12")]]}),
